@@ -28,7 +28,7 @@ func (c09) Exhaustive(env run.Env) (bool, string) {
 
 func (c09) Phases(env run.Env) []run.Phase {
 	if env.Thorough {
-		return []run.Phase{{Name: "mutations", N: len(coreList) + 9000}}
+		return []run.Phase{{Name: "mutations", N: len(coreList) + 250000}}
 	}
 	return []run.Phase{{Name: "mutations", N: 700}}
 }
